@@ -71,6 +71,8 @@ def candidates(path):
             continue
         if not st or st.startswith('//') or st.startswith('#[') or st.startswith('use ') or st.startswith('pub use '):
             continue
+        if '.field(' in st or '.finish()' in st:
+            continue  # Debug impls
         if 'assert' in st or st.startswith('fn ') or st.startswith('pub fn ') or st.startswith('impl') or st.startswith('where') or st.startswith('pub trait') or st.startswith('type '):
             continue
         code = line.split('//')[0]
@@ -162,12 +164,15 @@ def main():
     ap.add_argument('--boxes', type=int, default=3)
     ap.add_argument('--seed', type=int, default=1)
     ap.add_argument('--only', default='')
+    ap.add_argument('--exclude', default='', help='comma-separated path substrings to skip')
     ap.add_argument('--list', action='store_true')
     a = ap.parse_args()
     rnd = random.Random(a.seed)
     per_file = {}
     for p in src_files():
         if a.only and a.only not in p:
+            continue
+        if a.exclude and any(x in p for x in a.exclude.split(',')):
             continue
         c = candidates(p)
         if c:
